@@ -158,6 +158,8 @@ def parse_tlc(res):
             res.prints[-1] += ' ' + line.strip()
         else:
             cur = None
+    # TLC pretty-prints long tuples as '<< "a", ... >>': normalise to the compact form
+    res.prints = [re.sub(r'\s+>>', '>>', re.sub(r'<<\s+', '<<', l)) for l in res.prints]
     m = re.search(r'Invariant (\S+) is violated', out)
     if m:
         res.invariant = m.group(1)
@@ -321,19 +323,48 @@ def expect_mc_ok(chk, res, name, replay_extra=None):
 
 
 def validate_trace(chk, module, trace_path, name=None, timeout=1800, env=None, nruns=1, xss='512m', xmx='4g',
-                   key_of=None, cfg=None):
+                   key_of=None, cfg=None, resume=0, resume_to=None):
     """Trace validation impl->spec: TLC must consume every event of the ndjson file.
     On rejection: VIOLATION with the longest accepted prefix position and the first unmatched event.
-    key_of(event, mismatch_lines) -> stable key for known-finding matching."""
+    key_of(event, mismatch_lines) -> stable key for known-finding matching.
+    resume=N: after a rejection the rejected event (or, with resume_to, everything up to the next event whose
+    "ev" equals resume_to) is cut out and validation continues on the rest, at most N times, so that one
+    finding does not leave the remainder of the trace unexamined."""
     name = name or module
-    e = {'TRACE': trace_path}
-    if env:
-        e.update(env)
-    res = tlc(module, cfg=cfg, workers=1, timeout=timeout, env=e, deque=True, xss=xss, xmx=xmx, tag=name)
-    return judge_trace(chk, res, module, trace_path, name, nruns, key_of)
+    allok = True
+    cur = trace_path
+    offset = 0
+    for attempt in range(resume + 1):
+        e = {'TRACE': cur}
+        if env:
+            e.update(env)
+        res = tlc(module, cfg=cfg, workers=1, timeout=timeout, env=e, deque=True, xss=xss, xmx=xmx,
+                  tag=name + ('' if attempt == 0 else '(resumed %d)' % attempt))
+        ok = judge_trace(chk, res, module, cur, name, nruns if attempt == 0 else 0, key_of, offset=offset)
+        if ok:
+            return allok
+        allok = False
+        if res.rejected is None or attempt == resume:
+            return False
+        with open(cur) as f:
+            lines = f.readlines()
+        cut = res.rejected            # 1-based index of the rejected line
+        if resume_to:
+            while cut < len(lines) and json.loads(lines[cut]).get('ev') != resume_to:
+                cut += 1
+        rest = lines[cut:]
+        if not [l for l in rest if json.loads(l).get('ev') not in ('end', 'meta')]:
+            return False
+        nxt = trace_path + '.resume%d' % (attempt + 1)
+        with open(nxt, 'w') as f:
+            f.write(lines[0] if json.loads(lines[0]).get('ev') == 'meta' else '{"ev":"meta"}\n')
+            f.writelines(rest)
+        offset += cut - 1
+        cur = nxt
+    return allok
 
 
-def judge_trace(chk, res, module, trace_path, name, nruns=1, key_of=None):
+def judge_trace(chk, res, module, trace_path, name, nruns=1, key_of=None, offset=0):
     chk.add_tlc(res, name, trace=True)
     if res.ok:
         chk.cov['traces_validated_against_impl'] += nruns
@@ -362,7 +393,7 @@ def judge_trace(chk, res, module, trace_path, name, nruns=1, key_of=None):
                 key = None
         if key is None:
             key = '%s:event%s:%s' % (name, idx, res.invariant)
-        what = 'trace %s rejected by %s at event %s' % (os.path.basename(trace_path), module, idx)
+        what = 'trace %s rejected by %s at event %s' % (os.path.basename(trace_path), module, idx if idx is None else idx + offset)
         if res.invariant:
             what += ' (invariant %s)' % res.invariant
         if mism:
